@@ -24,19 +24,20 @@ where
     // working set.
     for elt in &old_ws[1..] {
         if let Some(uuid) = elt {
-            if let Some(task) = txn.get_task(*uuid).await? {
-                if in_working_set(&task) {
-                    // The existing working-set item is still in the working set -- no change.
-                    new_ws.push(Some(*uuid));
-                    seen.insert(*uuid);
-                } else {
-                    // The item should not be present. If we are not renumbering, then insert a
-                    // blank working-set item here
-                    if !renumber {
-                        new_ws.push(None);
-                    }
-                }
-                continue;
+            // A task that no longer exists (deleted locally or by a sync) is treated like one
+            // that is no longer in the working set.
+            let still_in_working_set = match txn.get_task(*uuid).await? {
+                Some(task) => in_working_set(&task),
+                None => false,
+            };
+            if still_in_working_set {
+                // The existing working-set item is still in the working set -- no change.
+                new_ws.push(Some(*uuid));
+                seen.insert(*uuid);
+            } else if !renumber {
+                // The item should not be present. If we are not renumbering, then insert a
+                // blank working-set item here
+                new_ws.push(None);
             }
         } else {
             // This item was already None.
